@@ -127,6 +127,7 @@ class XGen {
 
 public:
   explicit XGen(sim::Rng &rng) : r(rng) {}
+  bool exoticDecls = false;       // array lengths and vals written as constant expressions (C11's own workload: many are rejected)
 
   std::string make() {
     globals.clear(); arrays.clear(); funcs.clear(); procs.clear(); arraySize.clear(); funcArity.clear(); procArity.clear(); loopId = 0;
@@ -212,13 +213,23 @@ public:
     body += "proc main() is " + ldecl + "{ " + init + acts + fin + " }\n";
     // Declarations come first; loop counters were appended to globals while generating.
     for (auto &g : globals) decls += "var " + g + ";\n";
-    for (size_t a = 0; a < arrays.size(); a++) decls += "array " + arrays[a] + "[" + std::to_string(arraySize[a]) + "];\n";
+    if (exoticDecls) decls += "val sz = " + std::to_string(2 + r.below(7)) + ";\n";
+    for (size_t a = 0; a < arrays.size(); a++) {
+      std::string len = std::to_string(arraySize[a]);
+      if (exoticDecls && r.chance(1, 2)) {
+        // The same kind of constant expression a reader might write for a length: names, arithmetic,
+        // comparisons (true/false as a number), unary operators, brackets.
+        static const char *shape[] = {"sz", "sz + 1", "sz - 1", "(sz)", "-(-sz)", "sz >= 2", "sz > 1", "sz <= 9", "sz ~= 0", "sz = sz", "sz < 99", "~(sz = 0)", "#8", "'a'", "sz + sz", "true", "1 + (sz >= 2)"};
+        len = shape[r.below(17)];
+      }
+      decls += "array " + arrays[a] + "[" + len + "];\n";
+    }
     decls += bigDecl;
     return decls + body;
   }
 };
 
-inline std::string makeX(sim::Rng &r) { XGen g(r); return g.make(); }
+inline std::string makeX(sim::Rng &r, bool exoticDecls = false) { XGen g(r); g.exoticDecls = exoticDecls; return g.make(); }
 
 // Assembly programs built from I/O, arithmetic, loop and call blocks over labels.
 inline std::string makeAsm(sim::Rng &r) {
@@ -266,6 +277,13 @@ inline std::string makeAsm(sim::Rng &r) {
       case 0: case 1:   // put a character; sometimes the call is simply repeated (areg and the slots survive it)
         s += "LDAC " + std::to_string(33 + r.below(90)) + "\nLDBM 1\nSTAI 2\nLDAC " + std::to_string(streams[r.below(8)]) + "\nSTAI 3\nLDAC 1\nOPR SVC\n";
         if (r.chance(1, 4)) { int n = 1 + (int)r.below(3); for (int q = 0; q < n; q++) s += "OPR SVC\n"; }
+        // The compiler's idiom after every call: load the result slot (never written after a write call)
+        // and discard it.  Now and then the next instruction is an LDAP whose full 32-bit result is kept
+        // and later printed: whatever areg held before must not show through.
+        if (r.chance(1, 3)) {
+          s += "LDAM 1\nLDAI 1\n";
+          if (r.chance(1, 2)) { std::string l = "L" + std::to_string(lab++); s += "LDAP " + l + "\n" + l + "\nSTAM " + data() + "\n"; }
+        }
         break;
       case 2:           // get a character into a data word
         s += "LDAC " + std::to_string(instreams[r.below(8)]) + "\nLDBM 1\nSTAI 2\nLDAC 2\nOPR SVC\n";
